@@ -243,6 +243,12 @@ pub fn scenario(prop: &str, tier: &str, sseed: u64, index: u64) -> (&'static str
             let mut g = G::new(crate::mix(sseed, index));
             return ("deadlock-panic-then-followup", families::cycle_then_followup(&mut g));
         }
+        if index % 8 == 3 {
+            // asks that end in every possible way - including the asker unwinding with its ask in flight - followed by
+            // the callee asking back: no survivor may be hit by a deadlock report
+            let mut g = G::new(crate::mix(sseed, index));
+            return ("asks-ending-every-way-then-ask-back", families::temporal_acyclic(&mut g));
+        }
         let (sc, _, _) = families::crash_point_scenario(sseed, index);
         return ("crash-point-enumeration", sc);
     }
